@@ -1,3 +1,257 @@
 import BB.Driver.Util
-/-! Placeholder driver for C07 (replaced when the model is built). -/
-def main : IO Unit := BB.Driver.loop (fun (s : Unit) _ => (s, "unimplemented")) ()
+import BB.Model.Syncer
+/-!
+Line-protocol driver of the C07 syncer model (`BB.Syncer.step`).
+
+    init <minInt> <retryInt> <nfree> <oldest> <t0>
+    tick <n> | cancel | push | pop | fin <abs> <end>      environment (tick replies `ok <advanced>`:
+                                 the clock stops early where a loop ends up waiting for storeLock)
+    sync ok|fail                 the parked dataSyncer call returns
+    write p|r ok|fail            the parked WritePersistentState call of that loop returns
+    undo                         forget the last request (used to re-run it with another preference)
+  every request may end with `prefer:r` (who wins `storeLock` when both loops reach for it).
+
+Reply: `<result> | <events> | <summary>`.  After the stimulus both loops run until they
+block (`settle`); the events are the collaborator calls they make, tagged by loop.
+-/
+open BB.Driver BB.Syncer
+
+structure D where
+  c : Cfg := ⟨1, 1⟩
+  s : State := {}
+  prev : Option State := none
+  ready : Bool := false
+
+def showSnap (n : Snap) : String :=
+  s!"{n.oldest}[" ++ ",".intercalate (n.blocks.map fun b => s!"{b.1}:{b.2.1}:{b.2.2}") ++ "]"
+
+def wEvents (tag : String) (c : Cfg) (s : State) (w : WPc) (a : WAct) : List String :=
+  match w, a with
+  | .idle, .get => let n := (s.bl.getState).2; [s!"{tag}:getstate {showSnap n}", s!"{tag}:write {showSnap n}"]
+  | .writing _, .ret false => [s!"{tag}:log write", s!"{tag}:timer {c.retryInt}"]
+  | .written, .notify => s!"{tag}:notify" :: (s.bl.toRelease.take s.bl.releasing).map fun i => s!"{tag}:free {i}"
+  | _, _ => []
+
+/-- The observable calls an (enabled) action makes, from its pre-state. -/
+def events (c : Cfg) (s : State) : Act → List String
+  | .pGet => ["p:getput"]
+  | .pPoll => match s.p with
+    | .poll g => if s.bl.putCh.ready g then
+        [s!"p:timer {(Int.ofNat (s.lastSync + c.minInt)) - Int.ofNat s.now}"] else []
+    | _ => []
+  | .pWake => [s!"p:timer {c.minInt}"]
+  | .pStart => ["p:start 0", "p:datasync"]
+  | .pData false => ["p:log sync", s!"p:timer {c.retryInt}"]
+  | .pRetry => ["p:datasync"]
+  | .pCompleted => match s.p with
+    | .synced kg f => if !kg && !f then ["p:completed", "p:start 1", "p:datasync"] else ["p:completed"]
+    | _ => []
+  | .pW a => match s.p with
+    | .write _ w => wEvents "p" c s w a
+    | _ => []
+  | .rGet => ["r:getrel"]
+  | .rW a => match s.r with
+    | .write w => wEvents "r" c s w a
+    | _ => []
+  | _ => []
+
+inductive Next | act (a : Act) | blocked | race | wantLock
+
+def wNext (s : State) (w : WPc) : Option WAct ⊕ Unit :=
+  match w with
+  | .idle => .inr ()
+  | .writing _ => .inl none
+  | .written => .inl (some .notify)
+  | .sleep d => .inl (if s.now < d then none else some .wake)
+
+/-- What the put loop does next when left alone. -/
+def pNext (s : State) : Next :=
+  match s.p with
+  | .get => .act .pGet
+  | .poll _ => .act .pPoll
+  | .wait g =>
+    if s.bl.putCh.ready g && s.cancelled then .race
+    else if s.bl.putCh.ready g then .act .pWake
+    else if s.cancelled then .act .pCancel else .blocked
+  | .timer d _ =>
+    if s.cancelled && decide (d ≤ s.now) then .race
+    else if s.cancelled then .act .pCancel
+    else if d ≤ s.now then .act .pFire else .blocked
+  | .lock _ => .act .pStart
+  | .sync _ _ => .blocked
+  | .syncSleep _ _ d => if s.now < d then .blocked else .act .pRetry
+  | .synced _ _ => .act .pCompleted
+  | .write _ w => match wNext s w with
+    | .inr () => if s.storeLocked then .blocked else .wantLock
+    | .inl (some a) => .act (.pW a)
+    | .inl none => .blocked
+  | .done => .blocked
+
+def rNext (s : State) : Next :=
+  match s.r with
+  | .get => .act .rGet
+  | .wait g => if s.bl.relCh.ready g then .act .rWake else .blocked
+  | .write w => match wNext s w with
+    | .inr () => if s.storeLocked then .blocked else .wantLock
+    | .inl (some a) => .act (.rW a)
+    | .inl none => .blocked
+
+structure Settled where
+  s : State
+  ev : List String := []
+  contended : Bool := false
+  race : Bool := false
+  stuck : Bool := false   -- an enabled-looking action was refused by `step` (driver bug)
+
+/-- Run both loops until they block.  The put loop moves first except for `storeLock`. -/
+def settle (c : Cfg) (preferR : Bool) : Nat → Settled → Settled
+  | 0, r => { r with stuck := true }
+  | fuel + 1, r =>
+    let s := r.s
+    let doAct (a : Act) : Settled :=
+      match step c s a with
+      | some s' => settle c preferR fuel { r with s := s', ev := r.ev ++ events c s a }
+      | none => { r with stuck := true }
+    match pNext s, rNext s with
+    | .race, _ => { r with race := true }
+    | .act a, _ => doAct a
+    | .wantLock, .wantLock =>
+      let r' := { r with contended := true }
+      let a := if preferR then Act.rW .get else Act.pW .get
+      match step c s a with
+      | some s' => settle c preferR fuel { r' with s := s', ev := r'.ev ++ events c s a }
+      | none => { r' with stuck := true }
+    | .wantLock, .act a => doAct a
+    | .wantLock, _ => doAct (.pW .get)
+    | .blocked, .act a => doAct a
+    | .blocked, .wantLock => doAct (.rW .get)
+    | .blocked, _ => r
+
+/-- A loop waits for `storeLock` while the other one holds it across a parked write. -/
+def mutexWait (s : State) : Bool :=
+  s.storeLocked &&
+    ((match s.p with | .write _ .idle => true | _ => false) || (match s.r with | .write .idle => true | _ => false))
+
+def wDeadline : WPc → List Nat
+  | .sleep d => [d]
+  | _ => []
+
+/-- Pending timer deadlines of both loops. -/
+def deadlines (s : State) : List Nat :=
+  (match s.p with
+   | .timer d _ => [d]
+   | .syncSleep _ _ d => [d]
+   | .write _ w => wDeadline w
+   | _ => []) ++
+  (match s.r with
+   | .write w => wDeadline w
+   | _ => [])
+
+/-- Advance the clock to `target`, stopping at every timer deadline on the way. -/
+def tickTo (c : Cfg) (preferR : Bool) (target : Nat) : Nat → Settled → Settled
+  | 0, r => { r with stuck := true }
+  | fuel + 1, r =>
+    if r.race || r.stuck then r else
+    let ds := (deadlines r.s).filter fun d => r.s.now < d && d ≤ target
+    match ds.foldl (fun (m : Option Nat) d => match m with
+        | none => some d
+        | some x => some (min x d)) none with
+    | some d =>
+      let r' := settle c preferR 200 { r with s := { r.s with now := d } }
+      -- virtual time cannot advance while a goroutine sits in `storeLock.Lock()`
+      if d < target && !mutexWait r'.s then tickTo c preferR target fuel r' else r'
+    | none => settle c preferR 200 { r with s := { r.s with now := target } }
+
+def showW : WPc → String
+  | .idle => "widle"
+  | .writing _ => "writing"
+  | .written => "written"
+  | .sleep d => s!"wsleep@{d}"
+
+def showP : PPc → String
+  | .get => "get" | .poll _ => "poll" | .wait _ => "wait"
+  | .timer d _ => s!"timer@{d}" | .lock _ => "lock"
+  | .sync kg f => s!"sync{if kg then 1 else 0}{if f then 1 else 0}"
+  | .syncSleep _ _ d => s!"ssleep@{d}"
+  | .synced _ _ => "synced"
+  | .write _ w => showW w
+  | .done => "done"
+
+def showR : RPc → String
+  | .get => "get" | .wait _ => "wait" | .write w => showW w
+
+def b01 (b : Bool) : String := if b then "1" else "0"
+
+def summary (s : State) : String :=
+  let blockedOnLock := mutexWait s
+  s!"p={showP s.p} r={showR s.r} lock={b01 s.storeLocked} mutexwait={b01 blockedOnLock} now={s.now} last={s.lastSync} " ++
+  s!"cancelled={b01 s.cancelled} closed={b01 s.bl.closedW} blocks={s.bl.blocks.length} free={s.bl.free.length} " ++
+  s!"torelease={s.bl.toRelease.length} epochs={s.bl.nE} synced={s.bl.syncedE} syncing={s.bl.syncingE} oldest={s.bl.oldest} " ++
+  s!"released={s.bl.totalReleased} durable={showSnap s.durable} freed={s.freedTotal} " ++
+  s!"panic={b01 (s.bl.putCh.panicked || s.bl.relCh.panicked || s.bl.oob)}"
+
+def reply (d : D) (pre : State) (res : String) (r : Settled) : D × String :=
+  if r.stuck then (d, "model-stuck") else
+  let flags := (if r.contended then " contended" else "") ++ (if r.race then " race" else "")
+  ({ d with s := r.s, prev := some pre },
+   s!"{res}{flags} | {";".intercalate r.ev} | {summary r.s}")
+
+/-- Apply an environment/collaborator action, then let the loops run. -/
+def stim (d : D) (preferR : Bool) (a : Act) (res : State → String) : D × String :=
+  match step d.c d.s a with
+  | none => (d, "bad-op")
+  | some s' => reply d d.s (res s') (settle d.c preferR 200 { s := s', ev := events d.c d.s a })
+
+def stepLine (d : D) (line : String) : D × String :=
+  let ws := words line
+  let preferR := ws.getLast? == some "prefer:r"
+  let ws := ws.filter fun w => !(w.startsWith "prefer:")
+  match ws with
+  | ["init", m, r, n, o, t] =>
+    match nat? m, nat? r, nat? n, nat? o, nat? t with
+    | some m, some r, some n, some o, some t =>
+      let c : Cfg := ⟨m, r⟩
+      let s0 := init (List.range n) o t
+      let r := settle c preferR 200 { s := s0 }
+      reply { c := c, s := s0, prev := none, ready := true } s0 "ok" r
+    | _, _, _, _, _ => (d, "bad-op")
+  | _ =>
+  if !d.ready then (d, "bad-op") else
+  match ws with
+  | ["undo"] => match d.prev with
+    | some p => ({ d with s := p, prev := none }, "ok")
+    | none => (d, "bad-op")
+  | ["tick", n] => match nat? n with
+    | some n =>
+      if mutexWait d.s then (d, "bad-op") else
+      let r := tickTo d.c preferR (d.s.now + n) 50 { s := d.s }
+      reply d d.s s!"ok {r.s.now - d.s.now}" r
+    | none => (d, "bad-op")
+  | ["cancel"] => stim d preferR .cancel fun _ => "ok"
+  | ["push"] =>
+    let res := match d.s.bl.pushBack, d.s.bl.free with
+      | some _, id :: _ => s!"ok {id}"
+      | _, _ => if d.s.bl.closedW then "err closed" else "err full"
+    stim d preferR .push fun _ => res
+  | ["pop"] => stim d preferR .pop fun _ => "ok"
+  | ["fin", a, e] => match nat? a, nat? e with
+    | some a, some e =>
+      let res := match d.s.bl.fin a e with
+        | some (_, .ok ep) => s!"ok {ep}"
+        | some (_, .closed) => "closed"
+        | some (_, .released) => "released"
+        | none => "bad-op"
+      stim d preferR (.fin a e) fun _ => res
+    | _, _ => (d, "bad-op")
+  | ["sync", x] =>
+    if x == "ok" then stim d preferR (.pData true) fun _ => "ok"
+    else if x == "fail" then stim d preferR (.pData false) fun _ => "ok"
+    else (d, "bad-op")
+  | ["write", who, x] =>
+    if x != "ok" && x != "fail" then (d, "bad-op") else
+    if who == "p" then stim d preferR (.pW (.ret (x == "ok"))) fun _ => "ok"
+    else if who == "r" then stim d preferR (.rW (.ret (x == "ok"))) fun _ => "ok"
+    else (d, "bad-op")
+  | _ => (d, "bad-op")
+
+def main : IO Unit := loop stepLine {}
